@@ -6,7 +6,8 @@ import Percival.Model.AesStep
 printed within the contract: `C02.exec_never_model_ne_spec`).
 
 ops: expand <keyhex> | block <16 bytes hex> [<inoff> <outoff> [inplace]] | init <nonce> | init2 <nonce> [<newkeyhex>] |
-     stream <hex> [inplace [<off>] | <inoff> <outoff>] | streamzero <n> | buf <nonce> <hex> [<inoff> <outoff>] |
+     stream <hex> [inplace [<off>] | after <off> | before <off> | <inoff> <outoff>] | streamzero <n> |
+     buf <nonce> <hex> [<inoff> <outoff> | after <off> | before <off>] |
      seek <block> | bigstream <nonce> <n> <tail> [again] | free
 The offsets (0..15: where the harness puts the data relative to a 16-byte boundary) and `inplace` are facts about
 pointers; the Spec's answer does not depend on them, so `parse` only checks their syntax.
@@ -45,7 +46,7 @@ def parse : List String → Option Op
   | "stream" :: d :: rest =>
       let okRest := match rest with
         | [] | ["inplace"] => true
-        | ["inplace", o] => isOff o
+        | ["inplace", o] | ["after", o] | ["before", o] => isOff o
         | [i, o] => isOff i && isOff o
         | _ => false
       if !okRest then none else orMalformed ((bytesOfHex d).map .stream)
@@ -57,6 +58,7 @@ def parse : List String → Option Op
   | "buf" :: n :: d :: rest =>
       let okRest := match rest with
         | [] => true
+        | ["after", o] | ["before", o] => isOff o
         | [i, o] => isOff i && isOff o
         | _ => false
       if !okRest then none else
